@@ -30,12 +30,12 @@ type unpackCtx struct {
 	Reach    map[*ssa.Function]bool
 	ReachL   []*ssa.Function
 	PathVar  *types.Var
-	Ctor     *ssa.Function   // the function that validates a header and builds UnpackInfo
-	CtorCall *ssa.Call       // its call in Unpack
-	Info     ssa.Value       // the UnpackInfo result in Unpack
-	CtorOK   []Edge          // edges on which the constructor's error is nil
+	Ctor     *ssa.Function // the function that validates a header and builds UnpackInfo
+	CtorCall *ssa.Call     // its call in Unpack
+	Info     ssa.Value     // the UnpackInfo result in Unpack
+	CtorOK   []Edge        // edges on which the constructor's error is nil
 	CtorErr  []Edge
-	VCalls   []vsite         // calls Unpack makes directly or through private helpers
+	VCalls   []vsite // calls Unpack makes directly or through private helpers
 }
 
 // siteOf: the call instruction in Unpack through which the given call (in
